@@ -28,6 +28,7 @@ import (
 	"strconv"
 	"strings"
 	"sync"
+	"sync/atomic"
 	"time"
 
 	"github.com/jackc/pgx/v5/pgproto3"
@@ -60,6 +61,16 @@ type Script struct {
 	// BeforeData is called before every XLogData message is sent.  A non-nil channel makes the
 	// stream wait until it is closed; keepalives keep flowing every IdleKeepalive meanwhile.
 	BeforeData func(lsn uint64, text string) <-chan struct{}
+
+	// DecodeErrAt != 0: whenever the stream reaches the data message at this position the walsender raises
+	// a (non-FATAL) decoding ERROR instead of sending it: ErrorResponse + ReadyForQuery, the COPY BOTH
+	// stream is over and the session is back in command mode.  The error is a property of the WAL: it is
+	// raised again by every START_REPLICATION from a position before it.  From the first time on
+	// IDENTIFY_SYSTEM reports DecodeErrXLogPos (the server's flush position at that moment) instead of the
+	// end of the script.  OnDecodeErr is called with the number of times the error has been raised.
+	DecodeErrAt      uint64
+	DecodeErrXLogPos uint64
+	OnDecodeErr      func(n int)
 }
 
 // Start records one START_REPLICATION command.
@@ -83,6 +94,7 @@ type Server struct {
 	conns  int
 	closed bool
 	open   map[net.Conn]bool
+	decErr int // times the scripted decoding error has been raised
 }
 
 func Start(script Script) (*Server, error) {
@@ -224,10 +236,11 @@ func parseLSN(s string) (uint64, bool) {
 }
 
 type session struct {
-	s  *Server
-	c  net.Conn
-	be *pgproto3.Backend
-	wm sync.Mutex // serialises writers (stream goroutine and status replies)
+	s         *Server
+	c         net.Conn
+	be        *pgproto3.Backend
+	wm        sync.Mutex // serialises writers (stream goroutine and status replies)
+	streaming int32      // 1 while in COPY BOTH mode (atomic)
 }
 
 func (x *session) send(msgs ...pgproto3.BackendMessage) error {
@@ -279,7 +292,6 @@ func (s *Server) serve(c net.Conn) {
 		&pgproto3.ReadyForQuery{TxStatus: 'I'}) != nil {
 		return
 	}
-	streaming := false
 	for {
 		m, err := x.be.Receive()
 		if err != nil {
@@ -306,7 +318,7 @@ func (s *Server) serve(c net.Conn) {
 		case *pgproto3.CopyDone:
 			return
 		case *pgproto3.Query:
-			if streaming {
+			if atomic.LoadInt32(&x.streaming) == 1 {
 				return
 			}
 			sql := strings.TrimSpace(q.String)
@@ -317,7 +329,7 @@ func (s *Server) serve(c net.Conn) {
 			switch {
 			case len(f) >= 1 && f[0] == "IDENTIFY_SYSTEM":
 				msgs := textRow([]string{"systemid", "timeline", "xlogpos", "dbname"},
-					[]string{"7000000000000000001", "1", LSNString(s.walEnd()), "postgres"})
+					[]string{"7000000000000000001", "1", LSNString(s.xlogPos()), "postgres"})
 				msgs = append(msgs, &pgproto3.CommandComplete{CommandTag: []byte("IDENTIFY_SYSTEM")}, &pgproto3.ReadyForQuery{TxStatus: 'I'})
 				if x.send(msgs...) != nil {
 					return
@@ -348,7 +360,7 @@ func (s *Server) serve(c net.Conn) {
 				if x.send(&pgproto3.CopyBothResponse{OverallFormat: 0}) != nil {
 					return
 				}
-				streaming = true
+				atomic.StoreInt32(&x.streaming, 1)
 				go x.stream(lsn)
 			default:
 				x.send(&pgproto3.ErrorResponse{Severity: "ERROR", Code: "42601", Message: "fakepg: unsupported command: " + sql}, &pgproto3.ReadyForQuery{TxStatus: 'I'})
@@ -368,6 +380,17 @@ func (s *Server) walEnd() uint64 {
 	return e
 }
 
+// xlogPos: what IDENTIFY_SYSTEM reports
+func (s *Server) xlogPos() uint64 {
+	s.mu.Lock()
+	n := s.decErr
+	s.mu.Unlock()
+	if n > 0 && s.script.DecodeErrXLogPos != 0 {
+		return s.script.DecodeErrXLogPos
+	}
+	return s.walEnd()
+}
+
 func (x *session) stream(from uint64) {
 	s := x.s
 	s.mu.Lock()
@@ -382,6 +405,22 @@ func (x *session) stream(from uint64) {
 	end := s.walEnd()
 	sent := 0
 	data := func(lsn uint64, text string) bool {
+		if s.script.DecodeErrAt != 0 && lsn == s.script.DecodeErrAt {
+			s.mu.Lock()
+			s.decErr++
+			n := s.decErr
+			s.mu.Unlock()
+			if h := s.script.OnDecodeErr; h != nil {
+				h(n)
+			}
+			x.wm.Lock()
+			x.be.Send(&pgproto3.ErrorResponse{Severity: "ERROR", SeverityUnlocalized: "ERROR", Code: "XX000", Message: "invalid memory alloc request size 1073741824"})
+			x.be.Send(&pgproto3.ReadyForQuery{TxStatus: 'I'})
+			atomic.StoreInt32(&x.streaming, 0)
+			x.be.Flush()
+			x.wm.Unlock()
+			return false
+		}
 		if h := s.script.BeforeData; h != nil {
 			if gate := h(lsn, text); gate != nil {
 				for open := false; !open; {
